@@ -10,9 +10,11 @@ import random
 
 import c11
 import execcommon as xc
+import progcommon as pc
 import vlib
 
 PROP = "C18"
+PROG_OWNS = lambda c, cls, m: c.endswith("trace-log")
 
 
 def render_scenarios(rng, n):
@@ -58,6 +60,8 @@ def run(tier, seed):
         q = tier == "quick"
         sc2 = render_scenarios(rng, 200 if q else 4000)
         n2, s2 = xc.validate(sc2, wd, "rnd", rep, 8 if q else 14, owner=PROP)
+        pst = pc.judge(rep, 300 if q else 6000, 12, seed + 950, wd, "pg", PROG_OWNS, jobs=8 if q else 14)
+        pc.cov(rep, pst)
         rep.cov.update({
             "states": res["distinct"], "transitions": res["states"], "traces_validated_against_impl": s1 + s2,
             "events_validated": n1 + n2, "model_programs_replayed": len(sc1), "evaluations": n1 + n2,
